@@ -1,6 +1,7 @@
 import G3D.Proofs.KTieKvecAngle
 import G3D.Proofs.KTieKvecOrth
 import G3D.Proofs.KTieKvecPar
+import G3D.Proofs.MethodsTieCalc
 import G3D.Props.C11
 import G3D.Props.Classes
 #print axioms G3D.Props.C11.cosSq_in_range
@@ -25,3 +26,8 @@ import G3D.Props.Classes
 #print axioms G3D.KTie.Kvec.angle_cosSq
 #print axioms G3D.KTie.Kvec.angle_cosine_range
 #print axioms G3D.KTie.Kvec.angle_path
+#print axioms G3D.Tie.m_angle_parallel_eq
+#print axioms G3D.Tie.m_angle_orthogonal_eq
+#print axioms G3D.Tie.pyGeo_parallel_eq
+#print axioms G3D.Tie.pyGeo_orthogonal_eq
+#print axioms G3D.Tie.mcalc_complete
